@@ -379,7 +379,7 @@ def edge_check(case):
         if e is not None and not target.escape_ok(e):
             return 'host error %s: %s' % (type(e).__name__, e)
     post = target.snapshot(cpu)
-    for i, (b_, n_) in enumerate(case['mems']):
+    for i, (b_, n_) in enumerate((m_[0], m_[1]) for m_ in case['mems']):
         if len(post['mem%d' % i]) != n_:
             return 'resized: device %d now %d bytes (was %d)' % (i, len(post['mem%d' % i]), n_)
     if post['mem1'] != pre['mem1'] and (post['cpsr'] & 31) == (pre['cpsr'] & 31):
